@@ -181,6 +181,17 @@ def pp_elements(junction=True, include_node_elements=True, include_branch_elemen
     return pp_elms
 
 
+def _junction_reference_mask(net, element, column):
+    """
+    Rows of net[element] whose entry in `column` refers to a junction. The only column that mixes
+    reference kinds is the `element` column of valves: for junction-pipe valves (et == "pi") it holds
+    a pipe index, not a junction index.
+    """
+    if element == "valve" and column == "element" and "et" in net[element]:
+        return (net[element]["et"] != "pi").values
+    return np.ones(len(net[element]), dtype=bool)
+
+
 def reindex_junctions(net, junction_lookup):
     """
     Changes the index of net.junction and considers the new junction indices in all other
@@ -261,7 +272,11 @@ def reindex_elements(net, element, lookup):
     if element == "junction":
         for element, value in element_junction_tuples(net=net):
             if element in net.keys():
-                net[element][value] = get_indices(net[element][value], lookup)
+                mask = _junction_reference_mask(net, element, value)
+                if mask.all():
+                    net[element][value] = get_indices(net[element][value], lookup)
+                elif mask.any():
+                    net[element].loc[mask, value] = get_indices(net[element].loc[mask, value], lookup)
     elif element == "pipe":
         if "valve" in net:
             pipe_valves = net["valve"].loc[net["valve"]["et"] == "pi", "element"]
@@ -366,7 +381,8 @@ def fuse_junctions(net, j1, j2, drop=True):
     j2 = set(j2) - {j1} if isinstance(j2, Iterable) else [j2]
 
     for element, value in element_junction_tuples(net=net):
-        i = net[element][net[element][value].isin(j2)].index
+        mask = _junction_reference_mask(net, element, value)
+        i = net[element][net[element][value].isin(j2) & mask].index
         net[element].loc[i, value] = j1
 
     if drop:
@@ -405,8 +421,13 @@ def select_subnet(net, junctions, include_results=False, keep_everything_else=Fa
     comp_junc_rows = {tbl: [jr for el, jr in comp_tuples if el == tbl] for tbl in
                       set([v[0] for v in comp_tuples])}
     for comp_tbl, junc_rows in comp_junc_rows.items():
-        isin_all = np.all([net[comp_tbl][jr].isin(junctions) for jr in junc_rows], axis=0)
+        isin_all = np.all([net[comp_tbl][jr].isin(junctions) |
+                           ~_junction_reference_mask(net, comp_tbl, jr) for jr in junc_rows], axis=0)
         p2[comp_tbl] = net[comp_tbl][isin_all]
+    if "valve" in p2 and "pipe" in p2 and len(p2["valve"]) and "et" in p2["valve"]:
+        # junction-pipe valves belong to the subnet only together with their pipe
+        valves = p2["valve"]
+        p2["valve"] = valves[(valves["et"] != "pi").values | valves["element"].isin(p2["pipe"].index).values]
 
     if include_results:
         for table in net.keys():
@@ -480,8 +501,9 @@ def drop_elements_at_junctions(net, junctions, node_elements=True, branch_elemen
     """
     for element, column in element_junction_tuples(node_elements, branch_elements,
                                                    include_res_elements=False, net=net):
-        if any(net[element][column].isin(junctions)):
-            eid = net[element][net[element][column].isin(junctions)].index
+        at_junctions = net[element][column].isin(junctions) & _junction_reference_mask(net, element, column)
+        if any(at_junctions):
+            eid = net[element][at_junctions].index
             if element == 'pipe':
                 drop_pipes(net, eid)
             # elif element == 'trafo' or element == 'trafo3w':
@@ -508,6 +530,14 @@ def drop_pipes(net, pipes):
     :type pipes: Iterable
     :return: No output.
     """
+    # drop valves that are attached to the dropped pipes (junction-pipe valves)
+    if "valve" in net and len(net["valve"]) and "et" in net["valve"]:
+        pipe_valves = net["valve"].index[(net["valve"]["et"] == "pi").values &
+                                         net["valve"]["element"].isin(list(pipes)).values]
+        if len(pipe_valves):
+            net["valve"].drop(pipe_valves, inplace=True)
+            if "res_valve" in net.keys() and isinstance(net["res_valve"], pd.DataFrame):
+                net["res_valve"].drop(net["res_valve"].index.intersection(pipe_valves), inplace=True)
     # drop lines and geodata
     net["pipe"].drop(pipes, inplace=True)
     net["pipe_geodata"].drop(set(pipes) & set(net["pipe_geodata"].index), inplace=True)
